@@ -218,7 +218,33 @@ func verifyClosure(c *Ctx) *Func {
 	return nil
 }
 
-func c11c(c *Ctx) { c11cOnly(c, nil) }
+func c11c(c *Ctx) {
+	c11cOnly(c, nil)
+	c11cName(c)
+}
+
+// c11cName: a verifier is only built for a name that can appear in a note
+// signature line (no space, no '+', non-empty, valid UTF-8).
+func c11cName(c *Ctx) {
+	f := c.Fn("sunlight.NewRFC6962Verifier")
+	if f == nil {
+		return
+	}
+	c.touch(f)
+	g := f.Graph()
+	inst := f.Name + " name is a valid note key name"
+	vn := f.Calls(Callee{pkgRoot, "", "isValidName"})
+	okRets := successReturns(f)
+	if len(vn) != 1 || len(okRets) == 0 {
+		c.Unk(inst, "isValidName call / success return not found")
+		return
+	}
+	if objOf(f.Info(), vn[0].Call.Args[0]) != f.paramObj("name") {
+		c.Bad(inst, vn[0].Pos(), "the name that is validated is not the verifier's name")
+		return
+	}
+	c.guardSuccess(f, "name is a valid note key name", callTrueEdges(g, vn[0].Call), okRets, "a verifier can be built for a name that cannot be told apart in a signature line")
+}
 
 // c11cOnly runs the verifier-guard obligations, restricted to the guards whose
 // name contains one of the given substrings (all when nil).
